@@ -140,15 +140,19 @@ impl MoveGen {
 
     /// Never, ever, iterate this move
     pub fn remove_move(&mut self, chess_move: ChessMove) -> bool {
+        let mut found = false;
+        // a pawn that can also capture en passant has a second entry with the same source
         for x in 0..self.moves.len() {
             if self.moves[x].square == chess_move.get_source() {
                 self.moves[x].bitboard &= !BitBoard::from_square(chess_move.get_dest());
-                // the entry may have become empty: restore the "used entries first" invariant
-                self.set_iterator_mask(self.iterator_mask);
-                return true;
+                found = true;
             }
         }
-        false
+        if found {
+            // an entry may have become empty: restore the "used entries first" invariant
+            self.set_iterator_mask(self.iterator_mask);
+        }
+        found
     }
 
     /// For now, Only iterate moves that land on the following squares
